@@ -81,8 +81,12 @@ class BusProtocol (txdbus.protocol.BasicDBusProtocol):
 
         msg.sender = self.uniqueName
 
-        # re-marshal with the sender set and same serial number
-        msg._marshal(False)
+        # re-marshal the header with the sender set and same serial number;
+        # the body is forwarded exactly as received (in the sender's byte
+        # order): re-encoding it from the decoded values re-infers the type
+        # of every variant and can change or fail to encode its content
+        msg.endian = raw_msg[0]
+        msg._marshal(False, rawBody=msg.rawBody)
 
         self.bus.messageReceived(self, msg)
 
